@@ -1066,7 +1066,23 @@ func c11Strict(r *findings.Run, fns map[string]physical.FunctionDetails) {
 				continue
 			}
 			r.Outcome("strict/literal-NULL-accepted")
-			expectNull("literal-null", eL, vals, desc+" with literal NULL")
+			if !expectNull("literal-null", eL, vals, desc+" with literal NULL") {
+				continue
+			}
+			// one level up: the NULL result of the call is itself the argument of a strict function (x = x), once with the
+			// nullable variables and once with the literal NULLs: the outer call must see a nullable argument type
+			for ni, inner := range []logical.Expression{logical.NewFunctionExpression(t.fn, lvars), logical.NewFunctionExpression(t.fn, largs)} {
+				pN, rejN := lab.typecheck(logical.NewFunctionExpression("=", []logical.Expression{inner, inner}))
+				if rejN != "" {
+					continue
+				}
+				eN, err, pan := lab.materialize(pN)
+				if err != nil || pan != nil {
+					continue
+				}
+				r.Outcome("strict/nested-in-equality")
+				expectNull([]string{"nested-in-equality", "nested-in-equality/literal-null"}[ni], eN, vals, desc+" as both sides of an outer =")
+			}
 		}
 		r.Outcome("strict/NULL-in-each-position")
 	})
